@@ -183,6 +183,15 @@ def main():
         solver_s += r["solver_s"]
         paths += r["paths"]
 
+    # obligations of units that fix the LENGTH of a collection the real code iterates over (a history of k calls, a list of n
+    # files, a pipeline with two models, ...) are proved for that family only: labelled bounded, reported apart, never counted
+    # among the obligations this run claims as proved for all inputs
+    bounded_map = getattr(mod, "BOUNDED", {})
+    for rec in recs:
+        for pat, why in bounded_map.items():
+            if re.search(pat, rec.get("unit", "") + " " + rec.get("name", "")):
+                rec["bounded"] = why
+                break
     refuted = [r for r in recs if r["verdict"] == "refuted"]
     undecided = [r for r in recs if r["verdict"] == "undecided"]
     discharged = [r for r in recs if r["verdict"] == "discharged"]
@@ -247,7 +256,17 @@ def main():
     n_known = len(known_hits)
     # obligations refuted by a listed known finding are reported apart (refuted_known_findings) and not counted
     # among the obligations this run claims as proved
-    all_proved = (len(discharged) == n_ob - n_known and n_ob - n_known > 0)
+    bnd = [r for r in recs if r.get("bounded")]
+    n_bnd = len(bnd)
+    n_bnd_known = sum(1 for k, r in known_hits if r.get("bounded"))
+    unb_discharged = [r for r in discharged if not r.get("bounded")]
+    n_unb = n_ob - n_bnd - (n_known - n_bnd_known)
+    all_proved = (len(discharged) == n_ob - n_known and n_unb > 0)
+    by_unit = {}
+    for r in bnd:
+        d = by_unit.setdefault(r["unit"], {"bound": r["bounded"], "obligations": 0, "discharged": 0})
+        d["obligations"] += 1
+        d["discharged"] += r["verdict"] == "discharged"
     samples = []
     for r in recs[:2] + refuted[:2] + undecided[:1]:
         samples.append({k: r.get(k) for k in ("name", "function", "verdict", "solver", "seconds", "smt2", "witness", "detail") if r.get(k) is not None})
@@ -266,7 +285,9 @@ def main():
         "property_id": prop, "tier": tier, "seed": seed,
         "level": (getattr(mod, "LEVEL", None) or "proof") if all_proved else "other",
         "coverage": {
-            "obligations": n_ob - n_known, "discharged": len(discharged), "refuted": len(refuted) - n_known, "undecided": len(undecided),
+            "obligations": n_unb, "discharged": len(unb_discharged), "refuted": len(refuted) - n_known, "undecided": len(undecided),
+            "bounded_obligations": {"count": n_bnd, "discharged": sum(1 for r in bnd if r["verdict"] == "discharged"), "by_unit": by_unit,
+                                    "note": "proved for the stated family only (symbolic contents, fixed collection lengths); not included in obligations / discharged"},
             "refuted_known_findings": n_known, "obligations_generated_total": n_ob,
             "checker_cmd": f"python3-vt check.py {prop} --tier {tier}",
             "trusted_base": trusted,
